@@ -346,7 +346,11 @@ func (s *Store) Close() {
 // copying.  The copy will not include any old items or nodes so the
 // copy should be more compact if flushEvery is relatively large.
 func (s *Store) CopyTo(dstFile StoreFile, flushEvery int) (res *Store, err error) {
-	dstStore, err := NewStore(dstFile)
+	// The copy is read and written through the same callbacks as the
+	// source: without them a value that the callbacks keep only partly in
+	// Item.Val would be copied truncated, and the copied items would be
+	// used without a reference being taken.
+	dstStore, err := NewStoreEx(dstFile, s.callbacks)
 	if err != nil {
 		return nil, err
 	}
